@@ -2384,6 +2384,60 @@ def _substitutes(fi, h, in_helper):
     return False
 
 
+def _placeholder_dropped(fi, h):
+    """The handler records its placeholder in plain locals only, and nothing on the way on from the handler reads one of
+    them (the handler leaves the iteration with ``continue``, or the statements that follow the try statement inside the
+    loop read other names): the names; None when the placeholder is used (or recorded in a container / returned)."""
+    mod = fi.mod
+    names = set()
+    for s in h.body:
+        if isinstance(s, (ast.Assign, ast.AnnAssign, ast.AugAssign)):
+            for t in (s.targets if isinstance(s, ast.Assign) else [s.target]):
+                for x in ([t] if not isinstance(t, (ast.Tuple, ast.List)) else t.elts):
+                    if isinstance(x, ast.Name):
+                        names.add(x.id)
+                    else:
+                        return None
+        elif isinstance(s, ast.Expr) and isinstance(s.value, ast.Call) and isinstance(s.value.func, ast.Attribute) and \
+                s.value.func.attr in ('update', 'setdefault', 'append', 'extend', 'insert', 'add'):
+            return None
+        elif isinstance(s, ast.Return) and s.value is not None:
+            return None
+    if not names:
+        return None
+
+    def own(stmts, kinds):      # statements of these kinds that belong to this level of looping
+        out, todo = [], list(stmts)
+        while todo:
+            x = todo.pop()
+            if isinstance(x, kinds):
+                out.append(x)
+            if isinstance(x, (ast.For, ast.While, ast.FunctionDef, ast.AsyncFunctionDef, ast.ClassDef, ast.Lambda)):
+                continue
+            todo.extend(ast.iter_child_nodes(x))
+        return out
+    if own(h.body, (ast.Continue,)):
+        return names
+    tr = mod.parents.get(h)
+    following = list(tr.finalbody)
+    cur = tr
+    while cur is not None and cur is not fi.node:
+        holder = mod.parents.get(cur)
+        for fld in ('body', 'orelse', 'finalbody'):
+            block = getattr(holder, fld, None)
+            if isinstance(block, list) and any(cur is x for x in block):
+                i = [j for j, x in enumerate(block) if x is cur][0]
+                following.extend(block[i + 1:])
+        if isinstance(holder, (ast.For, ast.While)) or holder is fi.node:
+            break
+        cur = holder
+    for st in following:
+        for x in ast.walk(st):
+            if isinstance(x, ast.Name) and x.id in names and isinstance(x.ctx, ast.Load):
+                return None
+    return names
+
+
 PERIPHERAL_CALLS = ('get_context', 'render_main_page_html', 'get_general_items')
 
 
@@ -2454,6 +2508,12 @@ def _r18c(rep, repo, meta):
             rep.check('R18.c', fkey(anchor, c), ok, 'a failing peripheral is replaced by a placeholder (handler: except %s%s)'
                       % (norm(h.type) if h else None, ' in %s' % hf.qualname if h is not None and in_helper else '') if ok else
                       'a failing peripheral call %s fails the whole meta page' % short(c), meta, c)
+            if ok and not in_helper:
+                dropped = _placeholder_dropped(hf, h)
+                rep.check('R18.c', fkey(anchor, c) + '::placeholder reported', not dropped, 'the placeholder is read after the handler' if not dropped else
+                          'the placeholder stored in %s by the handler is never read (the handler leaves the iteration / the code after the try '
+                          'statement reads other names): the failing section is not reported, or shows what the previous one left behind'
+                          % sorted(dropped), meta, h)
             if h is not None and h.name:
                 # the placeholder is built from the repr / type of the exception, never by indexing into it (``e.args``
                 # may be empty): the handler itself must not be able to fail on the exception it reports
